@@ -229,9 +229,9 @@ Proof.
 Qed.
 
 Theorem quantile_0_is_min l :
-  quantile l 0 4 == qmin_list l 0 /\ forall x, In x l -> qmin_list l 0 <= x.
+  l <> [] -> quantile l 0 4 == qmin_list l 0 /\ forall x, In x l -> qmin_list l 0 <= x.
 Proof.
-  split.
+  intros _. split.
   - unfold quantile, qmin_list. apply quantile_sorted_0. lia.
   - intros x Hx. unfold qmin_list.
     apply (sorted_min_max (qsort l) x (qsort_sorted_nth l)).
@@ -239,9 +239,9 @@ Proof.
 Qed.
 
 Theorem quantile_100_is_max l :
-  quantile l 4 4 == qmax_list l 0 /\ forall x, In x l -> x <= qmax_list l 0.
+  l <> [] -> quantile l 4 4 == qmax_list l 0 /\ forall x, In x l -> x <= qmax_list l 0.
 Proof.
-  split.
+  intros _. split.
   - unfold quantile, qmax_list. rewrite <- (qsort_length l). apply quantile_sorted_full. lia.
   - intros x Hx. unfold qmax_list. rewrite <- (qsort_length l).
     apply (sorted_min_max (qsort l) x (qsort_sorted_nth l)).
